@@ -1,0 +1,181 @@
+// Copyright 2015-2024 Swim Inc.
+//
+// Licensed under the Apache License, Version 2.0 (the "License");
+// you may not use this file except in compliance with the License.
+// You may obtain a copy of the License at
+//
+//     http://www.apache.org/licenses/LICENSE-2.0
+//
+// Unless required by applicable law or agreed to in writing, software
+// distributed under the License is distributed on an "AS IS" BASIS,
+// WITHOUT WARRANTIES OR CONDITIONS OF ANY KIND, either express or implied.
+// See the License for the specific language governing permissions and
+// limitations under the License.
+
+//! Verification hooks (feature `verif_hooks` only): thin wrappers that let an external harness
+//! drive the private state of the agent runtime's write task one event at a time. Nothing here
+//! changes behaviour; every method forwards to the code used by `write_task`.
+
+use std::time::Duration;
+
+use bytes::BytesMut;
+use futures::FutureExt;
+use swimos_api::persistence::StoreDisabled;
+use swimos_model::Text;
+use swimos_utilities::{byte_channel::ByteWriter, trigger::promise};
+use uuid::Uuid;
+
+use crate::agent::{reporting::UplinkReporter, DisconnectionReason};
+
+use super::init::Initialization;
+use super::receiver::LaneData;
+use super::{RwCoordinationMessage, TaskMessageResult, WriteTaskMessage, WriteTaskState};
+
+pub use super::external_links::verif as external_links;
+pub use super::links::{Links, TriggerUnlink};
+pub use super::remotes::{LaneRegistry, RemoteSender, RemoteTracker, UplinkResponse};
+pub use super::write_fut::{SpecialAction, WriteAction, WriteResult, WriteTask};
+
+/// What the write task would do with the result of `handle_task_message`.
+#[derive(Debug)]
+pub enum Scheduled {
+    Write {
+        write: WriteTask,
+        schedule_prune: Option<Uuid>,
+    },
+    Prune(Uuid),
+    Nothing,
+}
+
+/// The state of the write task (`WriteTaskState`), driven one event at a time.
+pub struct WriteSim {
+    state: WriteTaskState,
+    init: Initialization,
+}
+
+impl WriteSim {
+    pub fn new(identity: Uuid, node_uri: Text, aggregate_reporter: Option<UplinkReporter>) -> Self {
+        WriteSim {
+            state: WriteTaskState::new(identity, node_uri, aggregate_reporter),
+            init: Initialization::new(None, Duration::from_secs(1)),
+        }
+    }
+
+    pub fn register_lane(&mut self, name: Text, reporter: Option<UplinkReporter>) -> u64 {
+        self.state.register_lane(name, reporter)
+    }
+
+    fn message(&mut self, msg: WriteTaskMessage) -> Scheduled {
+        let WriteSim { state, init } = self;
+        let store = StoreDisabled;
+        // None of the coordination arms awaits anything.
+        let result = state
+            .handle_task_message(msg, init, &store)
+            .now_or_never()
+            .expect("coordination messages do not suspend");
+        match result {
+            TaskMessageResult::ScheduleWrite {
+                write,
+                schedule_prune,
+            } => Scheduled::Write {
+                write,
+                schedule_prune,
+            },
+            TaskMessageResult::AddPruneTimeout(id) => Scheduled::Prune(id),
+            _ => Scheduled::Nothing,
+        }
+    }
+
+    /// `WriteTaskMessage::Remote`.
+    pub fn attach_remote(
+        &mut self,
+        id: Uuid,
+        writer: ByteWriter,
+        completion: promise::Sender<DisconnectionReason>,
+    ) -> Scheduled {
+        self.message(WriteTaskMessage::Remote {
+            id,
+            writer,
+            completion,
+            on_attached: None,
+        })
+    }
+
+    /// `RwCoordinationMessage::Link`.
+    pub fn link(&mut self, origin: Uuid, lane: Text) -> Scheduled {
+        self.message(WriteTaskMessage::Coord(RwCoordinationMessage::Link {
+            origin,
+            lane,
+        }))
+    }
+
+    /// `RwCoordinationMessage::Unlink`.
+    pub fn unlink(&mut self, origin: Uuid, lane: Text) -> Scheduled {
+        self.message(WriteTaskMessage::Coord(RwCoordinationMessage::Unlink {
+            origin,
+            lane,
+        }))
+    }
+
+    /// `RwCoordinationMessage::UnknownLane`.
+    pub fn unknown_lane(&mut self, origin: Uuid, node: Text, lane: Text) -> Scheduled {
+        self.message(WriteTaskMessage::Coord(
+            RwCoordinationMessage::UnknownLane {
+                origin,
+                path: swimos_api::address::RelativeAddress::new(node, lane),
+            },
+        ))
+    }
+
+    /// `WriteTaskEvent::Event` (after persistence).
+    pub fn handle_event(
+        &mut self,
+        lane_id: u64,
+        target: Option<Uuid>,
+        response: UplinkResponse,
+    ) -> Vec<WriteTask> {
+        self.state
+            .handle_event(lane_id, LaneData::new(target, response))
+            .collect()
+    }
+
+    /// `WriteTaskEvent::WriteDone` with a successful result.
+    pub fn write_done(&mut self, writer: RemoteSender, buffer: BytesMut) -> Option<WriteTask> {
+        self.state.replace(writer, buffer)
+    }
+
+    /// `WriteTaskEvent::WriteDone` with an error.
+    pub fn write_failed(&mut self, writer: RemoteSender) {
+        let remote_id = writer.remote_id();
+        self.state
+            .remove_remote(remote_id, DisconnectionReason::ChannelClosed);
+    }
+
+    /// `WriteTaskEvent::LaneFailed`.
+    pub fn lane_failed(&mut self, lane_id: u64) -> Vec<(TriggerUnlink, Option<WriteTask>)> {
+        self.state.remove_lane(lane_id).collect()
+    }
+
+    /// `WriteTaskEvent::PruneRemote`.
+    pub fn prune_remote(&mut self, remote_id: Uuid) {
+        self.state.remove_remote_if_idle(remote_id);
+    }
+
+    pub fn has_remotes(&self) -> bool {
+        self.state.has_remotes()
+    }
+
+    /// First half of the shutdown epilogue.
+    pub fn unlink_all(&mut self) -> Vec<WriteTask> {
+        self.state.unlink_all().collect()
+    }
+
+    /// End of the shutdown epilogue.
+    pub fn dispose_of_remotes(self, reason: DisconnectionReason) {
+        self.state.dispose_of_remotes(reason);
+    }
+
+    pub fn is_linked(&self, remote_id: Uuid, lane_id: u64) -> bool {
+        self.state.links.is_linked(remote_id, lane_id)
+    }
+}
